@@ -1,8 +1,9 @@
 SPECIFICATION Spec
-CONSTANTS N = 7  Rule = "endpoint_any_axis"  Scene = "reps"
+CONSTANTS N = 7  SnapWhen = "after_devices"  NCalls = 2  Rule = "endpoint_any_axis"  Scene = "reps"
 INVARIANT TypeOK
 INVARIANT StateIsFresh
 INVARIANT AllValid
 INVARIANT AppliedOnce
+INVARIANT HistoryComplete
 PROPERTY NoApplyDuringParams
 CHECK_DEADLOCK FALSE
